@@ -250,6 +250,60 @@ func c18Inspect(pk map[string]*Package, out *c18Outcome) {
 	out.dump = b.String()
 }
 
+// c18AllBuilt checks, at the moment a Build call returns in some thread, that every function
+// reachable from the given packages has been built.
+func c18AllBuilt(pk map[string]*Package, names []string, who string, out *c18Outcome) {
+	sub := map[string]*Package{}
+	for _, n := range names {
+		sub[n] = pk[n]
+	}
+	seen := map[*Function]bool{}
+	var visit func(f *Function)
+	visit = func(f *Function) {
+		if f == nil || seen[f] {
+			return
+		}
+		seen[f] = true
+		// Source functions of a package that is not being waited for are built by that package's
+		// own Build; the promise covers the packages named and the synthetic functions they need
+		// (wrappers, thunks, bound closures: Pkg == nil; generic instances: topLevelOrigin != nil).
+		if f.Pkg != nil && sub[f.Pkg.Pkg.Path()] == nil && f.topLevelOrigin == nil && f.parent == nil {
+			return
+		}
+		// a client looks at the function now: the read goes through the happens-before monitor
+		if *sched.Rd(&f.build) != nil {
+			out.problems = append(out.problems, fmt.Sprintf("%s returned but %s (%s) is not built", who, f.String(), f.Synthetic))
+			return
+		}
+		for _, af := range f.AnonFuncs {
+			visit(af)
+		}
+		for _, b := range f.Blocks {
+			for _, ins := range b.Instrs {
+				for _, op := range ins.Operands(nil) {
+					if op != nil && *op != nil {
+						if g, ok := (*op).(*Function); ok {
+							visit(g)
+						}
+					}
+				}
+			}
+		}
+	}
+	for _, n := range names {
+		var ms []string
+		for m := range sub[n].Members {
+			ms = append(ms, m)
+		}
+		sort.Strings(ms)
+		for _, m := range ms {
+			if f, ok := sub[n].Members[m].(*Function); ok {
+				visit(f)
+			}
+		}
+	}
+}
+
 func c18Body(sc c18Scenario, out *c18Outcome) func() {
 	return func() {
 		*out = c18Outcome{}
@@ -263,6 +317,7 @@ func c18Body(sc c18Scenario, out *c18Outcome) func() {
 		switch sc.Driver {
 		case "build":
 			prog.Build()
+			c18AllBuilt(pk, []string{"a", "b", "c"}, "Program.Build", out)
 		case "build-twice":
 			prog.Build()
 			var first c18Outcome
@@ -276,16 +331,47 @@ func c18Body(sc c18Scenario, out *c18Outcome) func() {
 		case "concurrent-builds":
 			join.Add(2)
 			for i := 0; i < 2; i++ {
-				sched.Go(func() { prog.Build(); done++; join.Done() })
+				sched.Go(func() {
+					prog.Build()
+					c18AllBuilt(pk, []string{"a", "b", "c"}, "Program.Build", out)
+					done++
+					join.Done()
+				})
 			}
 			wait(2)
 		case "per-package":
 			join.Add(3)
 			for _, n := range []string{"c", "b", "a"} {
-				p := pk[n]
-				sched.Go(func() { p.Build(); done++; join.Done() })
+				p, n := pk[n], n
+				sched.Go(func() {
+					p.Build()
+					c18AllBuilt(pk, []string{n}, "Package("+n+").Build", out)
+					done++
+					join.Done()
+				})
 			}
 			wait(3)
+		case "two-methodvalue-clients":
+			// two clients ask for the same promoted-method wrappers after creation of the packages
+			// (no Build): the second must not get a wrapper the first is still building
+			join.Add(2)
+			for c := 0; c < 2; c++ {
+				sched.Go(func() {
+					defer join.Done()
+					S := c18World.pkgs["a"].Scope().Lookup("S").Type()
+					for _, T := range []types.Type{types.NewPointer(S), S} {
+						ms := prog.MethodSets.MethodSet(T)
+						for i := 0; i < ms.Len(); i++ {
+							f := prog.MethodValue(ms.At(i))
+							if f != nil && *sched.Rd(&f.build) != nil {
+								out.problems = append(out.problems, "MethodValue returned "+f.String()+" before it was built")
+							}
+						}
+					}
+				})
+			}
+			wait(2)
+			prog.Build()
 		case "methodvalue-during-build":
 			join.Add(2)
 			sched.Go(func() { prog.Build(); done++; join.Done() })
@@ -296,7 +382,7 @@ func c18Body(sc c18Scenario, out *c18Outcome) func() {
 					ms := prog.MethodSets.MethodSet(T)
 					for i := 0; i < ms.Len(); i++ {
 						f := prog.MethodValue(ms.At(i))
-						if f != nil && f.build != nil {
+						if f != nil && *sched.Rd(&f.build) != nil {
 							out.problems = append(out.problems, "MethodValue returned "+f.String()+" before it was built")
 						}
 					}
@@ -315,7 +401,7 @@ func c18Body(sc c18Scenario, out *c18Outcome) func() {
 func c18Scenarios() []c18Scenario {
 	var out []c18Scenario
 	for _, m := range []BuilderMode{0, InstantiateGenerics} {
-		for _, d := range []string{"build", "per-package", "concurrent-builds", "methodvalue-during-build", "build-twice"} {
+		for _, d := range []string{"build", "per-package", "concurrent-builds", "methodvalue-during-build", "two-methodvalue-clients", "build-twice"} {
 			out = append(out, c18Scenario{d, m})
 		}
 	}
@@ -360,7 +446,7 @@ func c18Diff(a, b string) string {
 }
 
 func TestVerifC18(t *testing.T) {
-	res := vx.New("real go/ir builder (instrumented from the current source) on a 3-package program (b and c both need a's generic instances, promoted-method wrappers, bound-method thunks, method-expression thunks) x modes {default, InstantiateGenerics} x drivers {Program.Build, per-package Build from 3 threads, two concurrent Program.Build, MethodValue from a client during Build, Build twice}: every interleaving up to the delay bound and every package start order. Per execution: no deadlock, no channel misuse, no data race on the shared-function fields (happens-before monitor), every reachable function built when Build returns, one Function object per shared function; across executions: the printed IR of all reachable functions equals the BuildSerially build. Non-trivial = execution with >= 1 scheduling or environment deviation.")
+	res := vx.New("real go/ir builder (instrumented from the current source) on a 3-package program (b and c both need a's generic instances, promoted-method wrappers, bound-method thunks, method-expression thunks) x modes {default, InstantiateGenerics} x drivers {Program.Build, per-package Build from 3 threads, two concurrent Program.Build, MethodValue from a client during Build, two MethodValue clients, Build twice}: every interleaving up to the delay bound and every package start order. Per execution: no deadlock, no channel misuse, no data race on the shared-function fields (happens-before monitor), every reachable function built when Build returns, one Function object per shared function; across executions: the printed IR of all reachable functions equals the BuildSerially build. Non-trivial = execution with >= 1 scheduling or environment deviation.")
 	defer res.Write()
 	sched.KeyString = func(k any) (string, bool) {
 		if p, ok := k.(*types.Package); ok {
@@ -465,5 +551,5 @@ func TestVerifC18(t *testing.T) {
 		}
 	}
 	res.Validated = res.Evaluations
-	res.Bound = "completed (scheduling deviations, environment deviations) bounds: " + strings.Join(done, " ") + "; a scheduling deviation is any non-default thread choice (delay bounding); 5 drivers x 2 modes"
+	res.Bound = "completed (scheduling deviations, environment deviations) bounds: " + strings.Join(done, " ") + "; a scheduling deviation is any non-default thread choice (delay bounding); 6 drivers x 2 modes"
 }
